@@ -978,3 +978,19 @@ for _n, _k in (("panic_fmt", "panic"), ("core::panicking::panic_fmt", "panic"), 
                ("core::option::unwrap_failed", "unwrap"), ("core::panicking::panic_nounwind", "panic"), ("std::rt::begin_panic", "panic"), ("begin_panic", "panic"),
                ("core::panicking::unreachable_display", "unreachable"), ("unreachable_display", "unreachable"), ("core::panicking::panic_const::panic_const_div_by_zero", "panic")):
     S[_n] = _panic(_k)
+
+
+@summary("alloc::boxed::box_assume_init_into_vec_unsafe", "box_assume_init_into_vec_unsafe", "boxed::box_assume_init_into_vec_unsafe")
+def _(I, b):
+    mu = I.deref(b)
+    arr = mu.f[1].f[0].f[0] if type(mu) is Agg and mu.ty == "MaybeUninit" else mu
+    return VecObj(list(arr.f))
+
+
+@summary("core::slice::<impl []>::partition_point", "<impl []>::partition_point")
+def _(I, s, pred):
+    """index of the first element for which pred is false (the slice is assumed partitioned, as the contract requires)"""
+    items = s.items()
+    for i in range(len(items)):
+        if not I.W.branch(I.call_closure(pred, tup(Ptr(Cell(s.obj), (s.start + i,))))): return i
+    return len(items)
